@@ -1099,12 +1099,28 @@ func c10Gen(rng *rand.Rand, tier string) []core.Spec {
 	return out
 }
 
-func writerExecCount(sp *WriterSpec) (n int) {
-	defer func() {
-		if recover() != nil {
-			n = 0 // the program panics on this tree: no fault positions; the fault-free run reports it
-		}
+// writerExecCount counts the transport operations of a fault-free run (the positions at which a
+// fault can be planted).  A program that panics or does not return on this tree has none: its
+// fault-free run reports that.
+func writerExecCount(sp *WriterSpec) int {
+	ch := make(chan int, 1)
+	go func() {
+		defer func() {
+			if recover() != nil {
+				ch <- 0
+			}
+		}()
+		ch <- writerExecCount1(sp)
 	}()
+	select {
+	case n := <-ch:
+		return n
+	case <-time.After(10 * time.Second):
+		return 0
+	}
+}
+
+func writerExecCount1(sp *WriterSpec) (n int) {
 	var log []wEvent
 	conn := &wConn{log: &log, failAt: -1}
 	c := websocket.VerifNewConn(conn, sp.Server, 0, sp.WBuf, nil, nil, sp.Negotiated)
